@@ -36,7 +36,7 @@ WE == "we"           \* all writers hold the same write-cap, hence the same writ
 MShare(v) == IF v = 0 THEN AbsentM ELSE [present |-> TRUE, data |-> <<v>>, we |-> WE, leases |-> {}]
 \* f : shnum -> version id
 ServerWith(f) == [imm |-> <<>>, mut |-> [x \in {SI} |-> [sh \in DOMAIN f |-> MShare(f[sh])]],
-                  clock |-> 0, free |-> 0, readonly |-> FALSE]
+                  clock |-> 0, capacity |-> 0, reserved |-> 0, readonly |-> FALSE]
 ShnOf(S) == DOMAIN S.mut[SI]
 Ver(S, sh) == IF S.mut[SI][sh].present THEN S.mut[SI][sh].data[1] ELSE 0
 VerMap(S) == [sh \in ShnOf(S) |-> Ver(S, sh)]
